@@ -115,36 +115,7 @@ def check(run):
     n = lazy.check_getters(run, P, COORDS)
     run.floor("F-LAZY/getters", n, 15)
     lazy.check_no_overwrite(run, P, keys=set(COORDS), files=("uxarray/grid/coordinates.py",))
-    # Grid.__init__ passes through the longitude normalisation on every non-raising path
-    from ..flow import enumerate_paths
-    init = P.func("uxarray/grid/grid.py:Grid.__init__")
-    paths = enumerate_paths(init.node.body)
-    bad_paths = 0
-    for p in paths:
-        if p.exit == "raise":
-            continue
-        called = any(isinstance(c, ast.Call) and (dotted(c.func) or [""])[-1] == "_set_desired_longitude_range" for e in p.events for c in ast.walk(e))
-        if not called:
-            bad_paths += 1
-    c = "Grid.__init__:must-pass:_set_desired_longitude_range"
-    if bad_paths:
-        run.violation("F-PATH/lon-normalised-at-construction", c, where(init), f"{bad_paths} non-raising path(s) through Grid.__init__ skip _set_desired_longitude_range: source longitudes in [0,360) are reported unwrapped")
-    else:
-        run.holds("F-PATH/lon-normalised-at-construction", c, where(init), f"all {len(paths)} paths call _set_desired_longitude_range")
-    # the wrap itself: every *_lon variable is rewritten with (v+180)%360-180
-    w = P.func("uxarray/grid/coordinates.py:_set_desired_longitude_range")
-    names = set()
-    wrap = False
-    for n_ in ast.walk(w.node):
-        if isinstance(n_, ast.Constant) and isinstance(n_.value, str) and n_.value.endswith("_lon"):
-            names.add(n_.value)
-        if isinstance(n_, ast.BinOp) and isinstance(n_.op, ast.Sub) and norm(n_.right) in ("180", "180.0") and isinstance(n_.left, ast.BinOp) and isinstance(n_.left.op, ast.Mod) and norm(n_.left.right) in ("360", "360.0"):
-            wrap = True
-    c = f"{w.key}:covers-all-lon"
-    if {"node_lon", "edge_lon", "face_lon"} <= names and wrap:
-        run.holds("F-PATH/lon-wrap", c, where(w), "node_lon, edge_lon, face_lon wrapped by (v+180)%360-180")
-    else:
-        run.violation("F-PATH/lon-wrap", c, where(w), f"longitude wrap covers {sorted(names)} (wrap expression found: {wrap}); every *_lon variable must be wrapped to [-180,180]")
+    _lon_normalisation(run, P)
 
 
 RAD_SINKS = {"_lonlat_rad_to_xyz": (0, 1), "sin": (0,), "cos": (0,), "tan": (0,)}
@@ -397,3 +368,37 @@ def _repopulate_rewrites_both(run, P):
             run.violation("F-PATH/repopulate-both", c, where(f), f"with repopulate=True a path rewrites only part of the centre: {missing} keep their old values while the other representation is recomputed")
         else:
             run.holds("F-PATH/repopulate-both", c, where(f), f"repopulate=True rewrites lon, lat, x, y, z on all {len(paths)} paths")
+
+
+def _lon_normalisation(run, P):
+    from ..flow import enumerate_paths
+    # Grid.__init__ passes through the longitude normalisation on every non-raising path
+    init = P.func("uxarray/grid/grid.py:Grid.__init__")
+    paths = enumerate_paths(init.node.body)
+    bad_paths = 0
+    for p in paths:
+        if p.exit == "raise":
+            continue
+        called = any(isinstance(c, ast.Call) and (dotted(c.func) or [""])[-1] == "_set_desired_longitude_range" for e in p.events for c in ast.walk(e))
+        if not called:
+            bad_paths += 1
+    c = "Grid.__init__:must-pass:_set_desired_longitude_range"
+    if bad_paths:
+        run.violation("F-PATH/lon-normalised-at-construction", c, where(init), f"{bad_paths} non-raising path(s) through Grid.__init__ skip _set_desired_longitude_range: source longitudes in [0,360) are reported unwrapped")
+    else:
+        run.holds("F-PATH/lon-normalised-at-construction", c, where(init), f"all {len(paths)} paths call _set_desired_longitude_range")
+    # the wrap itself: every *_lon variable is rewritten with (v+180)%360-180
+    w = P.func("uxarray/grid/coordinates.py:_set_desired_longitude_range")
+    names = set()
+    wrap = False
+    for n_ in ast.walk(w.node):
+        if isinstance(n_, ast.Constant) and isinstance(n_.value, str) and n_.value.endswith("_lon"):
+            names.add(n_.value)
+        if isinstance(n_, ast.BinOp) and isinstance(n_.op, ast.Sub) and norm(n_.right) in ("180", "180.0") and isinstance(n_.left, ast.BinOp) and isinstance(n_.left.op, ast.Mod) and norm(n_.left.right) in ("360", "360.0"):
+            wrap = True
+    c = f"{w.key}:covers-all-lon"
+    if {"node_lon", "edge_lon", "face_lon"} <= names and wrap:
+        run.holds("F-PATH/lon-wrap", c, where(w), "node_lon, edge_lon, face_lon wrapped by (v+180)%360-180")
+    else:
+        run.violation("F-PATH/lon-wrap", c, where(w), f"longitude wrap covers {sorted(names)} (wrap expression found: {wrap}); every *_lon variable must be wrapped to [-180,180]")
+
